@@ -370,11 +370,24 @@ func parseOp(f []string) (op, bool) {
 		}
 		o.tail = int(t)
 		for _, s := range f[4:] {
-			k, ok := parseNat(s)
+			// chunk token `<k>` or `<k>*<n>`: n consecutive calls delivering up to k bytes each (`0*100` = 100 empty reads)
+			parts := strings.Split(s, "*")
+			if len(parts) > 2 {
+				return o, false
+			}
+			k, ok := parseNat(parts[0])
 			if !ok {
 				return o, false
 			}
-			o.ks = append(o.ks, int(k))
+			rep := int64(1)
+			if len(parts) == 2 {
+				if rep, ok = parseNat(parts[1]); !ok || rep > 1000 {
+					return o, false
+				}
+			}
+			for j := int64(0); j < rep; j++ {
+				o.ks = append(o.ks, int(k))
+			}
 		}
 		return o, true
 	case "writeto":
@@ -770,7 +783,7 @@ func spec() corr.Spec {
 			case "thorough":
 				return 50000
 			}
-			return 12000 // search tier (S7, after a broken tie): ~45 s, so that a whole run through S7 stays well under 2 min
+			return 8000 // search tier (S7, after a broken tie): a whole run through S7 stays under 2 min also on a loaded machine
 		},
 		Gen: genCase,
 		Run: runCase,
